@@ -495,4 +495,228 @@ theorem loadEnvFiles_append (penv : List (Key × Str)) (fs : FS) (a b : List Env
     | error e => rfl
     | ok vars => exact ih _
 
+/-! ### all services -/
+
+theorem collect_cons_ok {α : Type} (n : Str) (a : α) (rs : List (Str × Except Err α)) :
+    collect ((n, Except.ok a) :: rs) = match collect rs with
+      | .ok r => .ok ((n, a) :: r)
+      | .error es => .error es := by
+  simp only [collect, List.filterMap_cons]
+  split <;> rename_i hh <;> simp [hh]
+
+theorem collect_cons_err {α : Type} (n : Str) (e : Err) (rs : List (Str × Except Err α)) :
+    ∃ es, collect ((n, Except.error e) :: rs) = .error (e :: es) := by
+  simp [collect, List.filterMap_cons]
+
+theorem collect_ok {α : Type} (rs : List (Str × Except Err α)) (r : List (Str × α)) (h : collect rs = .ok r) :
+    rs = r.map fun p => (p.1, Except.ok p.2) := by
+  induction rs generalizing r with
+  | nil => simp [collect] at h; subst h; rfl
+  | cons x rest ih =>
+    obtain ⟨n, res⟩ := x
+    cases res with
+    | error e =>
+      obtain ⟨es, he⟩ := collect_cons_err n e rest
+      rw [he] at h; cases h
+    | ok a =>
+      rw [collect_cons_ok] at h
+      cases hc : collect rest with
+      | error es => rw [hc] at h; cases h
+      | ok r' =>
+        rw [hc] at h
+        simp only [Except.ok.injEq] at h
+        subst h
+        simp [ih r' hc]
+
+theorem collect_err {α : Type} (rs : List (Str × Except Err α)) (es : List Err) (h : collect rs = .error es) :
+    es ≠ [] ∧ ∀ e ∈ es, ∃ n, (n, Except.error e) ∈ rs := by
+  simp only [collect] at h
+  split at h
+  · cases h
+  · rename_i hne
+    simp only [Except.error.injEq] at h
+    subst h
+    refine ⟨fun e => hne (by simp [e]), fun e he => ?_⟩
+    obtain ⟨p, hp, hpe⟩ := List.mem_filterMap.1 he
+    obtain ⟨n, res⟩ := p
+    cases res with
+    | ok _ => simp at hpe
+    | error e' =>
+      simp only [Option.some.injEq] at hpe
+      subst hpe
+      exact ⟨n, hp⟩
+
+/-! ### Go map iteration order -/
+
+theorem distinct_perm {β : Type} (m m' : List (Key × β)) (hd : Distinct m) (hp : m.Perm m') : Distinct m' :=
+  ((hp.map Prod.fst).nodup_iff).1 hd
+
+/-- lookups in a Go map do not depend on the order its entries are listed in -/
+theorem lookup_perm {β : Type} (k : Key) (m m' : List (Key × β)) (hd : Distinct m) (hp : m.Perm m') :
+    lookup k m = lookup k m' := by
+  induction hp with
+  | nil => rfl
+  | cons x _ ih =>
+    obtain ⟨a, b⟩ := x
+    simp only [Distinct, List.map_cons, List.nodup_cons] at hd
+    simp only [lookup, ih hd.2]
+  | swap x y l =>
+    obtain ⟨a, b⟩ := x
+    obtain ⟨c, d⟩ := y
+    simp only [Distinct, List.map_cons, List.nodup_cons, List.mem_cons, not_or] at hd
+    by_cases h1 : a = k
+    · have : ¬ c = k := fun e => hd.1.1 (e.trans h1.symm)
+      simp [lookup, h1, this]
+    · by_cases h2 : c = k <;> simp [lookup, h1, h2]
+  | trans h1 _ ih1 ih2 => exact (ih1 hd).trans (ih2 (distinct_perm _ _ hd h1))
+
+theorem loadEnvFiles_congr_penv (penv penv' : List (Key × Str)) (fs : FS) (h : ∀ n, lookup n penv = lookup n penv')
+    (efs : List EnvFile) (acc : List (Key × Str)) :
+    loadEnvFiles penv fs efs acc = loadEnvFiles penv' fs efs acc := by
+  have e : ∀ acc, envChain penv acc = envChain penv' acc := by
+    intro acc; funext n; simp only [envChain, h]
+  induction efs generalizing acc with
+  | nil => rfl
+  | cons f r ih =>
+    simp only [loadEnvFiles, e]
+    cases loadEnvFile fs f (envChain penv' acc) with
+    | error _ => rfl
+    | ok vars => exact ih _
+
+/-! ### value-less entries resolved while loading -/
+
+/-- how `Resolve` sees one value of key `k` -/
+def rv (penv : List (Key × Str)) (k : Key) (v : Option Str) : Option Str :=
+  match v with
+  | none => lookup k penv
+  | some x => some x
+
+theorem rv_idem (penv : List (Key × Str)) (k : Key) (v : Option Str) : rv penv k (rv penv k v) = rv penv k v := by
+  cases v with
+  | some x => rfl
+  | none =>
+    simp only [rv]
+    cases h : lookup k penv <;> simp
+
+theorem lookup_resolveMWE_rv (penv : List (Key × Str)) (k : Key) (m : List (Key × Option Str)) :
+    lookup k (resolveMWE (fun n => lookup n penv) m) = (lookup k m).map (rv penv k) := by
+  rw [lookup_resolveMWE]
+  cases lookup k m with
+  | none => rfl
+  | some v => cases v <;> rfl
+
+theorem finalEnv_eq_rv (penv : List (Key × Str)) (files : List (List Line)) (env : List (Key × Option Str)) (k : Key) :
+    finalEnv penv files env k =
+      match (lookup k env).map (rv penv k) with
+      | some x => some x
+      | none => (filesVal penv files k).map some := by
+  unfold finalEnv
+  cases lookup k env with
+  | none => rfl
+  | some v => cases v <;> rfl
+
+theorem distinct_decodeEnv (y : YEnv) : Distinct (decodeEnv y) := by
+  cases y with
+  | absent => exact distinct_nil
+  | list items => exact distinct_overrideBy _ _ distinct_nil
+  | map kvs => exact distinct_overrideBy _ _ distinct_nil
+
+theorem lookup_overrideBy_nil {β : Type} (k : Key) (o : List (Key × β)) :
+    lookup k (overrideBy [] o) = lookup k o.reverse := by
+  rw [lookup_overrideBy_rev]
+  cases lookup k o.reverse <;> rfl
+
+theorem resolveMWE_reverse (look : Look) (m : List (Key × Option Str)) :
+    (resolveMWE look m).reverse = resolveMWE look m.reverse := by
+  simp [resolveMWE, List.map_reverse]
+
+/-- decoding a resolved list of pairs = resolving the decoded map, pointwise -/
+theorem lookup_decode_resolved (penv : List (Key × Str)) (k : Key) (o : List (Key × Option Str)) :
+    lookup k (overrideBy [] (resolveMWE (fun n => lookup n penv) o)) = (lookup k (overrideBy [] o)).map (rv penv k) := by
+  rw [lookup_overrideBy_nil, lookup_overrideBy_nil, resolveMWE_reverse, lookup_resolveMWE_rv]
+
+theorem normalize_pairs (penv : List (Key × Str)) (items : List Item) :
+    (items.map (normalizeItem penv)).map Item.pair = resolveMWE (fun n => lookup n penv) (items.map Item.pair) := by
+  induction items with
+  | nil => rfl
+  | cons it r ih =>
+    simp only [List.map_cons, resolveMWE] at ih ⊢
+    rw [ih]
+    congr 1
+    cases it with
+    | kv k v => rfl
+    | bare k =>
+      simp only [Item.pair, normalizeItem]
+      cases lookup k penv <;> rfl
+
+theorem lookup_decode_normalize (penv : List (Key × Str)) (y : YEnv) (k : Key) :
+    lookup k (decodeEnv (normalizeEnv penv y)) = (lookup k (decodeEnv y)).map (rv penv k) := by
+  cases y with
+  | absent => rfl
+  | list items =>
+    simp only [normalizeEnv, decodeEnv]
+    rw [normalize_pairs, lookup_decode_resolved]
+  | map kvs =>
+    simp only [normalizeEnv, decodeEnv]
+    have : kvs.map (normalizePair penv) = resolveMWE (fun n => lookup n penv) kvs := by
+      simp only [resolveMWE]
+      apply List.map_congr_left
+      intro p _
+      obtain ⟨a, b⟩ := p
+      cases b <;> rfl
+    rw [this, lookup_decode_resolved]
+
+theorem distinct_decodeEnv' (cfg : LoadCfg) (penv : List (Key × Str)) (y : YEnv) : Distinct (loadedEnv cfg penv y) :=
+  distinct_decodeEnv _
+
+/-- project-environment keys never contain `=` (they come from `KEY=VALUE` strings) -/
+def NoEqKeys (penv : List (Key × Str)) : Prop := ∀ p ∈ penv, '=' ∉ p.1
+
+theorem lookup_kv_text_none (penv : List (Key × Str)) (h : NoEqKeys penv) (k : Key) (v : Str) :
+    lookup (Item.kv k v).text penv = none := by
+  apply lookup_none_of_not_mem
+  intro hm
+  obtain ⟨p, hp, e⟩ := List.mem_map.1 hm
+  have := h p hp
+  rw [e] at this
+  exact this (by simp [Item.text])
+
+/-- with `=`-free project keys, `resolveServicesEnvironment` is `Normalize`'s `resolve` on the sequence form -/
+theorem resolveSeqEnv_eq_normalize (penv : List (Key × Str)) (h : NoEqKeys penv) (items : List Item) :
+    resolveSeqEnv penv (.list items) = normalizeEnv penv (.list items) := by
+  simp only [resolveSeqEnv, normalizeEnv]
+  congr 1
+  apply List.map_congr_left
+  intro it _
+  cases it with
+  | kv k v => simp only [resolveSeqItem, lookup_kv_text_none penv h k v, normalizeItem]
+  | bare k =>
+    simp only [resolveSeqItem, Item.text, normalizeItem]
+
+/-- what a whole load decodes, seen through `Resolve`, is the YAML `environment` seen through `Resolve` -/
+theorem loadedEnv_rv (cfg : LoadCfg) (penv : List (Key × Str)) (h : NoEqKeys penv) (y : YEnv) (k : Key) :
+    (lookup k (loadedEnv cfg penv y)).map (rv penv k) = (lookup k (decodeEnv y)).map (rv penv k) := by
+  have idem : ∀ x : Option (Option Str), (x.map (rv penv k)).map (rv penv k) = x.map (rv penv k) := by
+    intro x; cases x with
+    | none => rfl
+    | some v => simp [rv_idem]
+  unfold loadedEnv
+  cases y with
+  | absent => cases cfg.skipNormalization <;> rfl
+  | map kvs =>
+    cases cfg.skipNormalization with
+    | true => rfl
+    | false =>
+      simp only [resolveSeqEnv, Bool.false_eq_true, if_false]
+      rw [lookup_decode_normalize, idem]
+  | list items =>
+    rw [resolveSeqEnv_eq_normalize penv h]
+    cases cfg.skipNormalization with
+    | true =>
+      simp only [if_true]
+      rw [lookup_decode_normalize, idem]
+    | false =>
+      simp only [Bool.false_eq_true, if_false]
+      rw [lookup_decode_normalize, lookup_decode_normalize, idem, idem]
+
 end CV.EnvLayers
